@@ -127,6 +127,19 @@ class Project(object):
         self._module_cache[name] = module
         return module
 
+    def get_source_module(self, name):
+        # type: (str) -> SourceModule | None
+        """Module object for name if it is backed by a source file, without importing anything"""
+        try:
+            cached = name in self._context_cache or name in self._module_cache
+            if cached or self._find_module_file(name)[1]:
+                module = self.get_module(name)
+                if isinstance(module, SourceModule):
+                    return module
+        except ImportError:
+            pass
+        return None
+
     def _find_module_file(self, name):
         # type: (str) -> tuple[str | None, bool]
         """Locates module file like the import system does
